@@ -177,6 +177,33 @@ class Engine:
         g.toplevel(node, o)
         return Case(s, s.root, node, g, o, 'many-distinct-vtables' if many_vtables else 'wide-presence-patterns')
 
+    def make_pair_case(self, rng, gen_api=False):
+        """table types whose vtables are equal except for the table size (bwide PA..PH), fields added in declaration order, the types in
+        random order, clustered / inline vtables, runtime API or generated API, recording / moving allocator / default emitter"""
+        s = self.by_name['bwide']
+        node = bu.pair_value(s, rng)
+        g = bu.ScriptGen(s, rng, styles=False)
+        g.keep_order = True
+        g.gen_api = gen_api and s.name in self.HG
+        if g.gen_api: g.corder = self.corder.get(s.name); g.thash = self.thash.get(s.name); g.create_bias = 0.0
+        g.moving_alloc = rng.random() < 0.3
+        g.default_emitter = (not g.moving_alloc) and not g.gen_api and rng.random() < 0.3
+        o = {'clustering': rng.random() < 0.5, 'block_align': 0, 'ident': None, 'with_size': rng.random() < 0.3, 'style': 'se', 'early': False, 'align': 0}
+        g.toplevel(node, o)
+        return Case(s, s.root, node, g, o, 'vtable-size-pairs')
+
+    def make_many_nested_case(self, rng, levels, styles=False):
+        """one build with 34..80 and more nested buffers (chain and siblings) whose tables repeat the parent's and each other's shapes"""
+        s = self.by_name['bnest']
+        node = bu.many_nested_value(s, rng, levels)
+        g = bu.ScriptGen(s, rng, styles=styles)
+        g.moving_alloc = rng.random() < 0.3
+        g.default_emitter = (not g.moving_alloc) and rng.random() < 0.2
+        g.embed_min_depth = 99
+        o = {'clustering': rng.random() < 0.6, 'block_align': 0, 'ident': rng.choice([None, b'NEST']), 'with_size': rng.random() < 0.3, 'style': 'se', 'early': False, 'align': 0}
+        g.toplevel(node, o)
+        return Case(s, s.root, node, g, o, 'many-nested-buffers')
+
     def make_union_realloc_case(self, rng, inline):
         """generated <T>_<union>_add with the open table's inline data ending `inline` bytes into the data stack, moving allocator"""
         s = self.by_name['bwide']
@@ -474,6 +501,166 @@ class Engine:
                               'hold; end_table only asserts (debug builds) and with NDEBUG finishes a malformed table: %s; %s; independent decoder: %s' % (what, stored, r.get('d', '')[:40]),
                               dict(base, dec_line=r.get('dec', '')))
         return len(recs), nbad
+
+    # ------------------------------------------------------------------ vtables equal except for the table size
+    @staticmethod
+    def _vt_bucket(words, width=6):
+        """bucket of flatcc's default vtable hash (flatcc_builder.h FLATCC_BUILDER_*_VT_HASH, 64 buckets): used ONLY to aim the generator
+        at pairs that meet in one chain of the cache; no oracle depends on it"""
+        x = 0x2f693b52
+        for k, v in enumerate(words):
+            x = ((((k ^ x) * 2654435761) & 0xffffffff) ^ v) * 2654435761 & 0xffffffff
+        return x >> (32 - width)
+
+    def vtable_size_pairs(self, rng, count):
+        """Pairs of table shapes with identical field positions whose LAST field differs in width (1/2/4/8): their vtables are equal in
+        length and in every entry except the table size. Many pairs in one buffer - among them pairs whose vtables fall into the same
+        bucket of the vtable cache -, narrower first or wider first, clustered and inline vtables. Model byte for byte; the finished
+        bytes through the independent decoder over a synthetic schema (every field of every table must read back)."""
+        ctx = self.ctx
+        import itertools
+        shapes = []
+        for n in (1, 2, 3, 4):
+            for pre in itertools.product([1, 2, 4, 8], repeat=n):
+                for w1, w2 in ((1, 2), (1, 4), (1, 8), (2, 4), (2, 8), (4, 8)):
+                    def lay(sizes):
+                        off, ent = 0, []
+                        for z in sizes:
+                            off = (off + z - 1) // z * z; ent.append(off + 4); off += z
+                        return ent, off + 4
+                    (e1, t1), (e2, t2) = lay(list(pre) + [w1]), lay(list(pre) + [w2])
+                    if e1 != e2: continue
+                    vs = 2 * (len(e1) + 2)
+                    shapes.append((pre, w1, w2, self._vt_bucket([vs, t1] + e1) == self._vt_bucket([vs, t2] + e2)))
+        meet = [x for x in shapes if x[3]]
+        recs = []
+        for i in range(count):
+            npairs = rng.choice([4, 12, 40])
+            pick = rng.sample(meet, min(len(meet), max(2, npairs // 3))) + [rng.choice(shapes) for _ in range(npairs)]
+            rng.shuffle(pick)
+            cl, ws = i % 2, rng.choice([0, 2])
+            ops = ['X:%d:0:-' % cl, 'B:-:0:%d' % ws]
+            tables, exps, reg = [], [], 0
+            for pre, w1, w2, _ in pick:
+                order = [w1, w2] if rng.random() < 0.5 else [w2, w1]        # narrower first / wider first
+                if rng.random() < 0.3: order.append(order[0])                # and once more: must find its own vtable again
+                for w in order:
+                    sizes = list(pre) + [w]
+                    vals = [bytes(rng.randrange(1, 256) for _ in range(z)) for z in sizes]
+                    ops.append('Ts:%d' % len(sizes))
+                    ops += ['Ti:a:%d:%d:%d:%s' % (k, z, z, v.hex()) for k, (z, v) in enumerate(zip(sizes, vals))]
+                    ops.append('Te')
+                    tables.append(';'.join('%d,0,s:%d:%d' % (k, z, z) for k, z in enumerate(sizes)))
+                    exps.append('t{' + ';'.join('%d=b%s' % (k, v.hex()) for k, v in enumerate(vals)) + '}')
+                    reg += 1
+            nt = len(tables)
+            ops.append('Ts:%d' % nt); ops += ['To:%d:%d' % (k, k) for k in range(nt)]; ops += ['Te', 'E:%d' % nt]
+            ops = ' '.join(ops)
+            desc = '|'.join(tables + [';'.join('%d,0,t:%d' % (k, k) for k in range(nt))]) + '#-'
+            exp = 't{' + ';'.join('%d=%s' % (k, e) for k, e in enumerate(exps)) + '}'
+            recs.append({'h': ('buildd ' if i % 4 == 3 else 'build ') + ops, 'm': 'run ' + self._model_ops(ops), 'desc': desc, 'root': nt, 'exp': exp, 'ws': 1 if ws else 0,
+                         'meet': sum(1 for x in pick if x[3]), 'pairs': len(pick)})
+        hres = lib.run_harness_resilient(self.H, [r['h'] for r in recs])
+        mres = ctx.run_model('builder', [r['m'] for r in recs])
+        dl, dm = [], []
+        for r, hr, mr in zip(recs, hres, mres):
+            ctx.count(r['h'], klass='build:vtable-size-pairs')
+            if r['h'].startswith('buildd ') and mr.startswith('OK '): mr = re.sub(r' emits=\S+', ' emits=-', mr)
+            r['hr'], r['mr'], r['hi'] = hr, mr, parse_reply(hr)
+            if r['hi'] is not None:
+                r['dec'] = 'dec %s t:%d %d 3 %d %s' % (r['desc'], r['root'], r['ws'], r['hi']['align'], r['hi']['raw'].hex())
+                dl.append(r['dec']); dm.append(r)
+        for r, d in zip(dm, ctx.run_model('builder', dl) if dl else []): r['d'] = d
+        for r in recs:
+            base = {'harness_line': r['h'], 'model_line': r['m'], 'impl': r['hr'][:600], 'model': r['mr'][:600]}
+            what = '%d pairs of table shapes whose vtables differ in the table size only (%d of them in one bucket of the vtable cache)' % (r['pairs'], r['meet'])
+            if r['hr'].startswith('CRASH'):
+                ctx.violation('crash:' + self.crash_key(r['hr']), 'the builder crashes (sanitizer) on %s: %s' % (what, r['hr'][:300]), base)
+            elif r['hi'] is None:
+                ctx.violation('build-failed:vtable-size-pairs', 'a builder call fails on %s: %s' % (what, r['hr'][:200]), base)
+            elif r.get('d') != r['exp']:
+                got = r.get('d', '')
+                k = next((j for j in range(min(len(got), len(r['exp']))) if got[j] != r['exp'][j]), 0)
+                ctx.violation('malformed-buffer:vtable-shared-across-table-sizes' if got == 'NONE' else 'decodes-differently:vtable-size-pairs',
+                              'a buffer with %s does not decode to the fields added (independent decoder: %s; expected ..%s): a table points at a vtable recorded for another table size'
+                              % (what, got[max(0, k - 20):k + 40] or got[:40], r['exp'][max(0, k - 20):k + 40]), dict(base, dec_line=r['dec'][:6000]))
+            elif r['hr'] != r['mr']:
+                ctx.violation('corr:build:vtable-size-pairs', 'model and implementation disagree on %s' % what, base)
+        return len(recs)
+
+    # ------------------------------------------------------------------ wide tables nested top-down
+    def wide_nested_topdown(self, rng, count, key_prefix='read-differs'):
+        """Tables with high field ids (500..2000) opened INSIDE each other (start_table of the child while the parent is open) to depth
+        20..100: a field with the highest id (and a low one) added BEFORE descending, the reference to the child and further fields after
+        returning; every open ancestor keeps 2 * (highest id + 3) bytes on the vtable stack, which passes 64 KB on the way down. The
+        same value built bottom-up as a control. Model byte for byte; the finished bytes through the independent decoder: every field
+        that was added must be present with its value, at every level."""
+        ctx = self.ctx
+        recs = []
+        for i in range(count):
+            hi = rng.choice([500, 700, 998, 1500, 2000]) if i % 5 else 998
+            depth = rng.choice([20, 34, 35, 36, 40, 66, 90, 100]) if i % 3 else (65536 // (2 * (hi + 3)) + rng.choice([-1, 0, 1, 2, 5]))
+            depth = max(3, min(depth, 100))
+            topdown = i % 6 != 5
+            cid, lo, mid = 3, 0, rng.randrange(4, hi)        # child reference id, a low id, one more id added after returning
+            levels = [{'hi': rng.randrange(1 << 32).to_bytes(4, 'little'), 'lo': bytes([rng.randrange(1, 256)]), 'mid': rng.randrange(1 << 16).to_bytes(2, 'little'),
+                       'hi_first': rng.random() < 0.7} for _ in range(depth)]
+            cl, ws = rng.choice([0, 1]), rng.choice([0, 2])
+            ops = ['X:%d:0:-' % cl, 'B:-:0:%d' % ws]
+
+            def adds_before(L): return ['Ti:a:%d:4:4:%s' % (hi, L['hi'].hex()), 'Ti:a:%d:1:1:%s' % (lo, L['lo'].hex())] if L['hi_first'] else ['Ti:a:%d:1:1:%s' % (lo, L['lo'].hex())]
+            def adds_after(L): return ['Ti:a:%d:2:2:%s' % (mid, L['mid'].hex())] + ([] if L['hi_first'] else ['Ti:a:%d:4:4:%s' % (hi, L['hi'].hex())])
+            # results are numbered in completion order: the innermost table completes first (register 0) in both construction orders
+            if topdown:
+                for L in levels[:-1]: ops += ['Ts:%d' % (hi + 1)] + adds_before(L)
+                L = levels[-1]; ops += ['Ts:%d' % (hi + 1)] + adds_before(L) + adds_after(L) + ['Te']
+                for k, L in enumerate(reversed(levels[:-1])): ops += ['To:%d:%d' % (cid, k)] + adds_after(L) + ['Te']
+                mops = self._model_ops(' '.join(self._bottom_up(levels, hi, cid, adds_before, adds_after, ops[:2])))
+            else:
+                ops = self._bottom_up(levels, hi, cid, adds_before, adds_after, ops[:2]); mops = self._model_ops(' '.join(ops))
+            ops.append('E:%d' % (depth - 1)); mops += ' E:%d' % (depth - 1)
+            desc = ';'.join('%d,0,%s' % (k, v) for k, v in sorted({lo: 's:1:1', cid: 't:0', mid: 's:2:2', hi: 's:4:4'}.items())) + '#-'
+            exp = None
+            for L in reversed(levels):
+                f = {lo: 'b' + L['lo'].hex(), mid: 'b' + L['mid'].hex(), hi: 'b' + L['hi'].hex()}
+                if exp is not None: f[cid] = exp
+                exp = 't{' + ';'.join('%d=%s' % kv for kv in sorted(f.items())) + '}'
+            recs.append({'h': 'build ' + ' '.join(ops), 'm': 'run ' + mops, 'desc': desc, 'exp': exp, 'ws': 1 if ws else 0, 'depth': depth, 'hi': hi, 'topdown': topdown})
+        hres = lib.run_harness_resilient(self.H, [r['h'] for r in recs])
+        mres = ctx.run_model('builder', [r['m'] for r in recs])
+        dl, dm = [], []
+        for r, hr, mr in zip(recs, hres, mres):
+            ctx.count(r['h'], klass='build:wide-tables-nested-' + ('top-down' if r['topdown'] else 'bottom-up'))
+            r['hr'], r['mr'], r['hi_'] = hr, mr, parse_reply(hr)
+            if r['hi_'] is not None:
+                r['dec'] = 'dec %s t:0 %d %d %d %s' % (r['desc'], r['ws'], r['depth'] + 3, r['hi_']['align'], r['hi_']['raw'].hex())
+                dl.append(r['dec']); dm.append(r)
+        for r, d in zip(dm, ctx.run_model('builder', dl) if dl else []): r['d'] = d
+        for r in recs:
+            base = {'harness_line': r['h'][:200000], 'model_line': r['m'][:200000], 'impl': r['hr'][:400], 'model': r['mr'][:400]}
+            what = 'tables with field ids up to %d nested %s to depth %d (vtable stack %d bytes while the innermost table is open)' % (
+                r['hi'], 'top-down (child started while the parent is open)' if r['topdown'] else 'bottom-up', r['depth'], 2 * (r['hi'] + 3) * r['depth'])
+            if r['hr'].startswith('CRASH'):
+                ctx.violation('crash:' + self.crash_key(r['hr']), 'the builder crashes (sanitizer) on %s: %s' % (what, r['hr'][:300]), base)
+            elif r['hi_'] is None:
+                ctx.violation('build-failed:wide-tables-nested', 'a builder call fails on %s: %s' % (what, r['hr'][:200]), base)
+            elif r.get('d') != r['exp']:
+                got, exp = r.get('d', ''), r['exp']
+                k = next((j for j in range(min(len(got), len(exp))) if got[j] != exp[j]), min(len(got), len(exp)))
+                lvl = exp[:k].count('t{')
+                ctx.violation(key_prefix + ':wide-tables-nested-top-down',
+                              '%s: the finished buffer does not read back what was added (independent decoder), first difference at nesting level %d: read ..%s, written ..%s '
+                              '(fields that were added read absent)' % (what, lvl, got[max(0, k - 30):k + 30], exp[max(0, k - 30):k + 30]), dict(base, dec_line=r['dec'][:200000]))
+            elif r['hr'] != r['mr']:
+                ctx.violation('corr:build:wide-tables-nested', 'model and implementation disagree on %s' % what, base)
+        return len(recs)
+
+    @staticmethod
+    def _bottom_up(levels, hi, cid, adds_before, adds_after, head):
+        ops = list(head)
+        for k, L in enumerate(reversed(levels)):
+            ops += ['Ts:%d' % (hi + 1)] + adds_before(L) + (['To:%d:%d' % (cid, k - 1)] if k else []) + adds_after(L) + ['Te']
+        return ops
 
     # ------------------------------------------------------------------ classification helpers
     @staticmethod
